@@ -7,7 +7,7 @@ import numpy as np
 import shapely
 from shapely.geometry import LineString, MultiPolygon, Point, Polygon, box
 
-from .. import builders, ref
+from .. import builders, ref, sequences
 from ..runner import LibraryRaised, Recorder, lib
 
 PROPERTY = 'C07'
@@ -25,6 +25,7 @@ RULE = (
     "Non-trivial: geometries that touch without overlapping, buffer >= 2, datasets with > 10 cells, "
     "arrays with a marked cell on the border."
     ' Also: meshes supplying face_face or all tables, one-based tables with fill value 0, a mesh with nodes that belong to no face.'
+    " Datasets also arrive with a history: warmed convention, copy, deep copy, pickle, netCDF round trip, fully chunked (dask), and hand-built conventions for coordinates autodetection would not pick (decoy pair), after warm / pickle. Also (operation sequences, mc/sequences.py): for 8 base datasets and every sequence `first [middle] query` over 36 operations (queries, in-place edits a user makes, transforms whose result is used next; quick length 2, thorough length 3) ending in one of this property's own queries, the answer on the one used object equals the answer on a never-used rebuild. Second phase: the first case of every distinct outcome and kind (thorough: every case, for expensive checks every kind) again with debug logging enabled, under numpy.errstate(all='ignore'), and in python -O child interpreters."
 )
 LEVEL_TEXT = ("all boolean arrays up to 4x4 for the ring-growing / edge-node-marking primitives, all face subsets of the "
               "library meshes for buffer_faces / mask_from_face_indexes, and 13 dataset-derived clip geometries x "
@@ -57,7 +58,7 @@ def array_shapes(tier):
 CHUNK = 512
 
 
-def cases(tier):
+def _cases_first_call(tier):
     out = []
     for spec in builders.family_specs(tier):
         if spec['family'] == 'cf2d' and spec.get('bounds') == 'derived' and spec.get('holes', 'none') != 'none':
@@ -358,7 +359,20 @@ def run_part_m(case, rec):
     rec.outcome([case['mesh'], case['edges']])
 
 
-def run_case(case):
+def _run_case_first_call(case):
     rec = Recorder()
     {'A': run_part_a, 'B': run_part_b, 'M': run_part_m}[case['part']](case, rec)
     return rec.result()
+
+
+def cases(tier):
+    # first calls on freshly built datasets, then operation sequences on one object (mc/sequences.py)
+    return _cases_first_call(tier) + sequences.cases_for(PROPERTY, tier)
+
+
+def run_case(case):
+    if case.get('part') == 'sequence':
+        rec = Recorder()
+        sequences.run_case(PROPERTY, case, rec)
+        return rec.result()
+    return _run_case_first_call(case)
